@@ -97,7 +97,10 @@ class Solver:
             # This is herm flag take for granted that the liouvillian keep
             # hermiticity.  But we do not check user passed super operator for
             # anything other than dimensions.
-            'isherm': not (self.rhs.dims == state.dims) and state._isherm,
+            # Nothing is known for an operator evolved as a propagator.
+            'isherm': (
+                state._isherm if self.rhs.dims != state.dims else None
+            ),
         }
         if state.isket:
             norm = state.norm()
